@@ -1,7 +1,11 @@
 """C11 — inversion solvers: SART follows its update rule, NNLS/LSQ return true minimisers."""
 import ast
 import z3
-from .common import lemma, structural
+from .common import lemma, structural as _structural
+
+
+def structural(name, prop, ok, detail=''):
+    return _structural(name, prop, ok, detail, standin='stacking' if name.startswith('stacking/') else None)
 
 PROP = 'C11'
 LEVEL = 'proof'
@@ -207,3 +211,77 @@ print(json.dumps(out))
     out = run_native(ctx, code)
     return {'confirmed': bool(out) and not out.get('finite_nonnegative'), 'input': 'W 3x2, b = (-1, 0, -0.5), alpha = 0.1', 'observed': out,
             'expected': 'the NNLS minimiser (x = 0 here) with a finite residual norm'}
+
+
+def bounded_solver_optimality(ctx):
+    """Bounded stand-in (NOT a proof) for the solver wrappers whose optimality rests on third-party routines: on random geometry matrices
+    (dense, with all-zero columns, with all-zero rows), measurement vectors (incl. non-positive ones) and Tikhonov operators (identity,
+    Laplacian-like coupling) the returned vector must satisfy the optimality conditions of the documented problem:
+      invert_regularised_nnls : x >= 0 and KKT of min ||W x - b||^2 + alpha^2 ||L x||^2 (gradient >= 0, zero where x > 0); norm = sqrt(objective)
+      invert_regularised_lstsq: normal equations (W^T W + alpha^2 L^T L) x = W^T b
+      invert_svd              : x = pinv(W) b (minimum-norm least squares: W^T (W x - b) = 0 and x in the row space of W)."""
+    from replaylib.native import run_native
+    n = 40 if ctx['tier'] == 'quick' else 600
+    code = '''
+import random, numpy as np
+from cherab.tools.inversions import invert_regularised_nnls, invert_regularised_lstsq, invert_svd
+rnd = random.Random(%d); rs = np.random.RandomState(%d)
+bad = []; cases = 0
+def lap(n):
+    L = 2.0 * np.eye(n) - np.eye(n, k=1) - np.eye(n, k=-1); return L
+for trial in range(%d):
+    m, n = rnd.randint(2, 7), rnd.randint(2, 6)
+    W = rs.uniform(0, 1, (m, n)) * (rs.uniform(0, 1, (m, n)) < 0.8)
+    if rnd.random() < 0.4: W[:, rnd.randrange(n)] = 0.0
+    if rnd.random() < 0.3: W[rnd.randrange(m), :] = 0.0
+    b = rs.uniform(0, 2, m) if rnd.random() < 0.8 else rs.uniform(-1, 0.5, m)
+    alpha = rnd.choice([0.0, 0.01, 0.5, 3.0])
+    L = None if rnd.random() < 0.4 else (lap(n) if rnd.random() < 0.6 else np.diag(rs.uniform(0.5, 2, n)))
+    Lm = np.eye(n) if L is None else L.copy()         # pristine copy: the solvers get the caller's own array L, several times
+    W0, b0 = W.copy(), b.copy()
+    if np.abs(W).sum() == 0: continue
+    # NNLS
+    cases += 1
+    try:
+        x, norm = invert_regularised_nnls(W, b, alpha=alpha, tikhonov_matrix=L)
+        x = np.asarray(x, float)
+        g = W.T @ (W @ x - b) + alpha ** 2 * Lm.T @ (Lm @ x)
+        obj = float(np.sum((W @ x - b) ** 2) + alpha ** 2 * np.sum((Lm @ x) ** 2))
+        scale = 1e-7 * (1.0 + np.abs(W.T @ b).max() + np.abs(x).max())
+        if x.min() < -1e-12 or g.min() < -scale or np.abs(g[x > 1e-9]).max(initial=0.0) > scale or abs(norm - np.sqrt(obj)) > 1e-7 * (1 + np.sqrt(obj)):
+            bad.append({"solver": "invert_regularised_nnls", "W": W.tolist(), "b": b.tolist(), "alpha": alpha, "L": None if L is None else L.tolist(),
+                        "x": x.tolist(), "gradient": g.tolist(), "norm": float(norm), "sqrt_objective": float(np.sqrt(obj))})
+    except Exception as e:
+        bad.append({"solver": "invert_regularised_nnls", "W": W.tolist(), "b": b.tolist(), "alpha": alpha, "error": repr(e)[:100]})
+    # LSTSQ
+    cases += 1
+    x, res = invert_regularised_lstsq(W, b, alpha=alpha, tikhonov_matrix=L)
+    x = np.asarray(x, float)
+    g = W.T @ (W @ x - b) + alpha ** 2 * Lm.T @ (Lm @ x)
+    if np.abs(g).max() > 1e-7 * (1.0 + np.abs(W.T @ b).max() + np.abs(x).max()):
+        bad.append({"solver": "invert_regularised_lstsq", "W": W.tolist(), "b": b.tolist(), "alpha": alpha, "x": x.tolist(), "normal_equation_residual": g.tolist()})
+    # the same caller-owned arrays again, another alpha (an alpha scan): arguments must not have been modified by the earlier calls
+    cases += 1
+    alpha2 = rnd.choice([0.05, 0.7, 2.0])
+    x, res = invert_regularised_lstsq(W, b, alpha=alpha2, tikhonov_matrix=L)
+    x = np.asarray(x, float)
+    g = W0.T @ (W0 @ x - b0) + alpha2 ** 2 * Lm.T @ (Lm @ x)
+    if np.abs(g).max() > 1e-7 * (1.0 + np.abs(W0.T @ b0).max() + np.abs(x).max()) or not np.array_equal(W, W0) or not np.array_equal(b, b0) or (L is not None and not np.array_equal(L, Lm)):
+        bad.append({"solver": "invert_regularised_lstsq (second call with the same arrays)", "alpha": alpha2, "normal_equation_residual": g.tolist(),
+                    "arguments_modified": bool(not np.array_equal(W, W0) or not np.array_equal(b, b0) or (L is not None and not np.array_equal(L, Lm)))})
+    # SVD
+    cases += 1
+    x = np.asarray(invert_svd(W, b), float)
+    want = np.linalg.lstsq(W, b, rcond=None)[0]
+    if not np.allclose(x, want, rtol=1e-7, atol=1e-9):
+        bad.append({"solver": "invert_svd", "W": W.tolist(), "b": b.tolist(), "x": x.tolist(), "minimum_norm_least_squares": want.tolist()})
+    if len(bad) > 5: break
+print(json.dumps({"cases": cases, "bad": bad[:4]}))
+''' % (ctx['seed'] + 11, ctx['seed'] + 11, n)
+    out = run_native(ctx, code, timeout=900)
+    return {'name': 'NNLS / LSTSQ / SVD wrappers: optimality conditions of the documented problems (BOUNDED stand-in, not counted as proved)',
+            'ok': bool(out) and out.get('bad') == [], 'detail': out, 'covers': ['stacking'],
+            'bound': '%d random problems (2..7 x 2..6, zero rows / columns, alpha in {0, 0.01, 0.5, 3}), seed %d' % (n, ctx['seed'] + 11)}
+
+
+BOUNDED = [bounded_solver_optimality]
